@@ -142,7 +142,8 @@ class TLCResult:
         m = re.search(r"Error: Action property (\S+) is violated", out)
         if m:
             self.violation = m.group(1)
-        if "Temporal properties were violated" in out:
+        m = re.search(r"Temporal propert(y|ies) (\S+ )?w(as|ere) violated", out)
+        if m:
             self.violation = self.violation or "temporal"
         if "Deadlock reached" in out:
             self.violation = self.violation or "deadlock"
